@@ -657,7 +657,7 @@ def _compile_vectorized_power_gradient(
         elif k == 2:
 
             def grad_power_k2(x: NDArray[np.floating]) -> NDArray[np.floating]:
-                return 2.0 * x
+                return _sanitize_derivatives(2.0 * x)
 
             return grad_power_k2
         else:
@@ -737,7 +737,7 @@ def _compile_vectorized_unary_gradient(
         if is_full:
 
             def grad_exp(x: NDArray[np.floating]) -> NDArray[np.floating]:
-                return np.exp(x)
+                return _sanitize_derivatives(np.exp(x))
 
             return grad_exp
         else:
@@ -745,7 +745,7 @@ def _compile_vectorized_unary_gradient(
             def grad_exp_sparse(x: NDArray[np.floating]) -> NDArray[np.floating]:
                 result = np.zeros(n)
                 result[indices] = np.exp(x[indices])
-                return result
+                return _sanitize_derivatives(result)
 
             return grad_exp_sparse
 
@@ -790,7 +790,7 @@ def _compile_vectorized_unary_gradient(
         if is_full:
 
             def grad_sinh(x: NDArray[np.floating]) -> NDArray[np.floating]:
-                return np.cosh(x)
+                return _sanitize_derivatives(np.cosh(x))
 
             return grad_sinh
         else:
@@ -798,7 +798,7 @@ def _compile_vectorized_unary_gradient(
             def grad_sinh_sparse(x: NDArray[np.floating]) -> NDArray[np.floating]:
                 result = np.zeros(n)
                 result[indices] = np.cosh(x[indices])
-                return result
+                return _sanitize_derivatives(result)
 
             return grad_sinh_sparse
 
@@ -807,7 +807,7 @@ def _compile_vectorized_unary_gradient(
         if is_full:
 
             def grad_cosh(x: NDArray[np.floating]) -> NDArray[np.floating]:
-                return np.sinh(x)
+                return _sanitize_derivatives(np.sinh(x))
 
             return grad_cosh
         else:
@@ -815,7 +815,7 @@ def _compile_vectorized_unary_gradient(
             def grad_cosh_sparse(x: NDArray[np.floating]) -> NDArray[np.floating]:
                 result = np.zeros(n)
                 result[indices] = np.sinh(x[indices])
-                return result
+                return _sanitize_derivatives(result)
 
             return grad_cosh_sparse
 
